@@ -495,15 +495,31 @@ def sorted_extreme(ctx, o, is_min, bound, node):
             raise Unsupported('minKey/maxKey bound of wrong kind', node)
         cand = (lambda t: t >= b) if is_min else (lambda t: t <= b)
     exists = z3.And(z3.Select(dom, r), cand(r))
-    best = z3.ForAll([q], z3.Implies(z3.And(z3.Select(dom, q), cand(q)),
-                                     (r <= q) if is_min else (r >= q)),
-                     patterns=[z3.Select(dom, q)])
-    none = z3.ForAll([q], z3.Not(z3.And(z3.Select(dom, q), cand(q))),
-                     patterns=[z3.Select(dom, q)])
-    i = ctx.choose([z3.And(exists, best), none], 'minmaxkey')
+    role = o.meta.get('role')
+    if role:
+        from .ground import All, FAnd
+        ctx.roles.array(base_of(dom), role)
+        ctx.roles.seed(role, r)
+        best = All([role], lambda qq: z3.Implies(z3.And(z3.Select(dom, qq), cand(qq)),
+                                                 (r <= qq) if is_min else (r >= qq)))
+        none = All([role], lambda qq: z3.Not(z3.And(z3.Select(dom, qq), cand(qq))))
+        i = ctx.choose([FAnd(exists, best), none], 'minmaxkey')
+    else:
+        best = z3.ForAll([q], z3.Implies(z3.And(z3.Select(dom, q), cand(q)),
+                                         (r <= q) if is_min else (r >= q)),
+                         patterns=[z3.Select(dom, q)])
+        none = z3.ForAll([q], z3.Not(z3.And(z3.Select(dom, q), cand(q))),
+                         patterns=[z3.Select(dom, q)])
+        i = ctx.choose([z3.And(exists, best), none], 'minmaxkey')
     if i == 1:
         raise RaiseSig(VExc('builtins:ValueError'))
     return map_key_value(ctx, o, r)
+
+
+def base_of(a):
+    while z3.is_app(a) and a.decl().kind() == z3.Z3_OP_STORE:
+        a = a.arg(0)
+    return a
 
 
 def get_item(ctx, recv, key, node):
@@ -1604,3 +1620,26 @@ def c_dict(ctx, interp, args, kwargs, node):
 @ctor('builtins:bool')
 def c_bool(ctx, interp, args, kwargs, node):
     return p_bool(ctx, interp, args, kwargs, node)
+
+
+@prim('builtins.open')
+def p_open(ctx, interp, args, kwargs, node):
+    h = ctx.hooks.get('open')
+    if h:
+        r = h(ctx, args, kwargs, node)
+        if r is not None:
+            return r
+    mode = 'r'
+    if len(args) > 1 and isinstance(args[1], VStr) and args[1].s is not None:
+        mode = args[1].s
+    elif 'mode' in kwargs and isinstance(kwargs['mode'], VStr):
+        mode = kwargs['mode'].s
+    elif len(args) > 1:
+        raise Unsupported('open() with symbolic mode', node)
+    if mode.startswith('w'):
+        f = new_file(ctx, 'newfile', arr=z3.K(I, z3.IntVal(0)), size=z3.IntVal(0),
+                     pos=z3.IntVal(0), mode=mode)
+    else:
+        f = new_file(ctx, 'openedfile', pos=z3.IntVal(0), mode=mode)
+    ctx.event('open', f, args[0], mode)
+    return f
